@@ -112,7 +112,14 @@ def run(tier):
                                          for s_ in outs_):
                             return True
                 return False
-            okc = head_after != _Z or any(left_at_list_end(l) for l in rel) or cursor_null_at_exit(st, loops, rel)
+            def record_head_null_at_every_exit(l):
+                # the loop pops from the front of st->see_list itself (no local cursor): every way out of it - condition, break,
+                # return - has the record's own head NULL
+                info_ = loops[l]
+                outs_ = list(info_.get('exit_snaps') or []) + [s_ for kind, _tr, s_ in (info_.get('iter_states') or []) if kind in ('break', 'return')]
+                return bool(outs_) and all('st' in s_.objs and s_.canon(_mem.load_scalar(s_, s_.objs['st'], _C(fs.soff('see_list')), fs.ix.parse_type('void *'))) == _Z
+                                           for s_ in outs_)
+            okc = head_after != _Z or any(left_at_list_end(l) for l in rel) or cursor_null_at_exit(st, loops, rel) or all(record_head_null_at_every_exit(l) for l in rel)
             rep.check(okc, 'R19.d', 'reset|release-loop-exit', 'the loop that releases the observations on a topology Reset (%s) can be left while its cursor still points into the '
                       'list (a bound or guard ran out first); the list head is cleared all the same: the remaining nodes are unreachable and never freed' % ', '.join(rel),
                       file='lltdResponder/lltdBlock.c', function='parseFrame')
